@@ -204,3 +204,113 @@ def s3(facts, rep):
                 continue
             rep.check(v["name"] in raised, "S3", enum.split("::", 1)[1], "variant=%s" % v["name"], "the documented rejection %s::%s is never raised on the path of %s: the check it stands for is gone" % (enum.split("::")[-1], v["name"], [e.split("::")[-1] for e in entries][:2]), detail="raised at %s" % raised.get(v["name"], [])[:3])
     return n
+
+
+# ---- S4: the loop that performs a per-element / per-pair check draws from the WHOLE input collection ------------------------
+#
+# `verify_update` must refuse an op outside the proven scope, and ops / paths out of order.  Those checks sit in loops; a check
+# that only sees part of the input (`ops[1..]`, `paths.chunks_exact(2)`, `.skip(1)`, `.step_by(2)`, `.take(n)`) lets the rest
+# through unchecked.  Rule: the iterator that drives the loop containing the guard is built from the input collection through
+# adapters that keep every element (iter, into_iter, enumerate, peekable, rev, copied, cloned, map, chain, windows, by_ref); a
+# sub-slicing `Index` with a range, or a partitioning / truncating adapter anywhere in the chain, is a violation.  An index loop
+# must run over `0..len` or `1..len` of the collection.
+
+S4_GUARDS = [
+    ("nomt_core::proof::path_proof::verify_update", "OpOutOfScope"),
+    ("nomt_core::proof::path_proof::verify_update", "OpsOutOfOrder"),
+    ("nomt_core::proof::path_proof::verify_update", "PathsOutOfOrder"),
+    ("nomt_core::proof::multi_proof::verify_update", "OpOutOfScope"),
+    ("nomt_core::proof::multi_proof::verify_update", "OpsOutOfOrder"),
+    ("nomt_core::proof::multi_proof::verify", "PathsOutOfOrder"),
+]
+S4_KEEP = ("iter", "into_iter", "iter_mut", "enumerate", "peekable", "rev", "copied", "cloned", "map", "chain", "windows", "by_ref", "deref", "as_slice", "as_ref", "borrow", "clone", "inspect", "zip")
+S4_LOSE = ("skip", "take", "step_by", "chunks", "chunks_exact", "rchunks", "rchunks_exact", "filter", "filter_map", "take_while", "skip_while", "map_while", "split_at", "split_first", "split_last", "nth", "last", "array_chunks")
+
+
+S4_PAIRWISE = ("OpsOutOfOrder", "PathsOutOfOrder")  # checks on adjacent pairs: `windows(2)` covers them; a per-element check in a windows loop misses one element
+
+
+def _chain(body, op, depth=0, seen=None, lose=S4_LOSE):
+    """(adapter names, problems) on the way from an iterator value back to its source"""
+    seen = seen if seen is not None else set()
+    names, probs = [], []
+    if depth > 10:
+        return names, probs
+    for r in trace(body, op):
+        if r.key() in seen:
+            continue
+        seen.add(r.key())
+        if r.kind in ("call", "via") and r.obj is not None:
+            c = str(r.what)
+            short = c.rsplit("::", 1)[-1]
+            args = r.obj.get("args", [])
+            if short in ("index", "index_mut") and len(args) == 2 and "ops::range::Range" in body.op_ty(args[1]) and not body.op_ty(args[1]).endswith("RangeFull"):
+                probs.append("a sub-range of the collection (`[..]` with %s)" % body.op_ty(args[1]).rsplit("::", 1)[-1].split("<")[0])
+            elif short in lose:
+                probs.append("`%s`" % short)
+            names.append(short)
+            for a in (args[:2] if short in ("zip", "chain") else args[:1]):
+                n2, p2 = _chain(body, a, depth + 1, seen, lose)
+                names += n2
+                probs += p2
+        elif r.kind == "agg" and r.obj is not None and "ops::range::Range" in str(r.what):
+            fl = r.obj.get("fields", [])
+            st = r.obj["ops"][fl.index("start")] if "start" in fl else None
+            en = r.obj["ops"][fl.index("end")] if "end" in fl else None
+            names.append("range")
+            if st is not None and not (st.get("k") == "const" and st.get("int") in ("0", "1")):
+                probs.append("an index range that does not start at 0 or 1")
+            if en is not None and not any(str(x.what).endswith("::len") for x in trace(body, en) if x.kind == "call"):
+                probs.append("an index range whose end is not the collection's length")
+    return names, probs
+
+
+def s4(facts, rep):
+    import panicfree
+    import termination
+
+    n = 0
+    for (fn, variant) in S4_GUARDS:
+        body = facts.bodies.get(fn)
+        if body is None:
+            raise CheckBroken("ANCHOR-MISSING function %s" % fn)
+        # the validation may live in helpers of the verifier (`check_path_ops(..)?`): look there too
+        region, st_ = [], [(fn, 0)]
+        seen_r = set()
+        while st_:
+            cur, dp = st_.pop()
+            cb = facts.bodies.get(cur)
+            if cur in seen_r or cb is None or cb.crate != "nomt_core" or cb.kind == "Closure":
+                continue
+            seen_r.add(cur)
+            region.append(cb)
+            if dp < 2:
+                for (_b, c2, _t, k2) in facts.callees(cb):
+                    if k2 == "call":
+                        st_.append((c2, dp + 1))
+        for body in region:
+          short = body.id.split("::", 1)[1]
+          loops = termination.natural_loops(body)
+          gs = panicfree.guard_switches(body, variant)
+          in_loop = 0
+          for (sw, _err) in gs:
+              inner = sorted([(h, blk, lat) for (h, blk, lat) in loops if sw in blk], key=lambda x: len(x[1]))
+              if not inner:
+                  continue
+              in_loop += 1
+              # the check may sit in an inner search loop; every enclosing loop that is driven by an iterator must cover its source
+              for (h, blk, lat) in inner:
+                  drv = None
+                  for u in sorted(blk):
+                      t = body.term(u)
+                      if t["k"] == "call" and termination.is_iter_next(t.get("callee") or t.get("orig") or "") and t["args"] and all(body.dominates(u, lt) for lt in lat):
+                          drv = (u, t)
+                          break
+                  if drv is None:
+                      continue
+                  il = termination.iter_local(body, drv[1]["args"][0])
+                  names, probs = _chain(body, {"k": "copy", "pl": {"l": il}}, lose=S4_LOSE if variant in S4_PAIRWISE else S4_LOSE + ("windows",))
+                  n += 1
+                  rep.check(not probs, "S4", short, "%s-covers-input" % variant, "the loop that raises %s iterates over %s: elements outside that view are accepted unchecked" % (variant, " and ".join(sorted(set(probs)))), site=drv[1].get("ln"), detail="loop at %s driven by %s" % (drv[1].get("ln"), " <- ".join(names[:6]) or "the collection itself"))
+        # a guard outside any loop (e.g. `ops.iter().is_sorted..` style predicates) is judged by S2 / the C18 precondition
+    return n
